@@ -157,6 +157,31 @@ theorem keeps_scopeModifyAt (f : Tree → Tree)
     exact keeps_node v (forall₂_modify _ ks i (fun k hk => allNodes_kid h hk)
       (fun k hk => keeps_scopeModifyAt f hf p k (allNodes_kid h hk))) (nodeOK_of_allNodes h)
 
+theorem forall₂_modify_at (g : Tree → Tree) : ∀ (ks : List Tree) (i : Nat),
+    (∀ k ∈ ks, k.allNodes (nodeOK env) = true) → (∀ k, ks[i]? = some k → Keeps env (g k) k) →
+    KeepsList env (ks.modify i g) ks
+  | [], _, _, _ => by simp only [List.modify_nil]; exact .nil
+  | k :: ks, 0, hok, hg => by
+    simp only [List.modify_zero_cons]
+    exact .cons (hg k (by simp)) (forall₂_refl ks (fun k' hk' => hok k' (by simp [hk'])))
+  | k :: ks, i + 1, hok, hg => by
+    simp only [List.modify_succ_cons]
+    exact .cons (Keeps.refl (hok k (by simp)))
+      (forall₂_modify_at g ks i (fun k' hk' => hok k' (by simp [hk'])) (fun k' hk' => hg k' (by simpa using hk')))
+
+/-- An edit of the subtree at `path` (and only there). -/
+theorem keeps_scopeModifyAt_at (f : Tree → Tree) :
+    ∀ (path : Path) (t : Tree), t.allNodes (nodeOK env) = true →
+      (∀ sub, t.at? path = some sub → Keeps env (f sub) sub) → Keeps env (scopeModifyAt f t path) t
+  | [], t, _, hf => by cases t; exact hf _ rfl
+  | i :: p, .node v ks, h, hf => by
+    simp only [scopeModifyAt]
+    refine keeps_node v (forall₂_modify_at _ ks i (fun k hk => allNodes_kid h hk) (fun k hk => ?_))
+      (nodeOK_of_allNodes h)
+    refine keeps_scopeModifyAt_at f p k (allNodes_kid h (List.mem_of_getElem? hk)) (fun sub hs => hf sub ?_)
+    simp only [Tree.at?, hk]
+    exact hs
+
 /-! ### Back to `Representable` -/
 
 theorem representableFragment_of_keeps {t' t : Tree} (hr : RepresentableFragment env t = true)
